@@ -1,6 +1,165 @@
-//! C02 — not built yet.
+//! C02 — Hayson (JSON) encode -> decode returns the original value.
+//!
+//! input: VX of one value; label `wf…` = well-formed (exact round trip required), `any…` = model fidelity.
+//! Correspondence: `C02 jenc V` -> `ok J` (document order of serde_json::to_string's text);
+//!                 `C02 jdec J` -> `ok V'` | `err` (serde_json::from_str on that text).
+//! Oracles: all six entry points (to_string/to_vec/to_value, from_str/from_slice/from_value) agree and
+//! give back the value in every component; each typed (De)Serialize impl accepts exactly its kind.
+
 use crate::ctx::{CaseOut, Ctx};
+use crate::gen::{self, Cfg};
+use crate::jtok;
+use crate::same;
+use crate::vx;
+use libhaystack::val::*;
 
-pub fn exec(_label: &str, _input: &str, _out: &mut CaseOut) {}
+pub fn jdec_reply(text: &str) -> (String, Option<Value>) {
+    match serde_json::from_str::<Value>(text) {
+        Ok(v) => (format!("ok {}", vx::show(&v)), Some(v)),
+        Err(_) => ("err".into(), None),
+    }
+}
 
-pub fn generate(_ctx: &mut Ctx) {}
+fn typed_checks(v: &Value, text: &str, out: &mut CaseOut) {
+    macro_rules! typed {
+        ($t:ty, $variant:pat, $name:expr) => {{
+            let r: Result<$t, _> = serde_json::from_str(text);
+            let should = matches!(v, $variant);
+            if r.is_ok() != should {
+                out.fail("typed_accepts", format!("{}: deserialising {text} as {} gives ok={}", crate::c01::kind_name(v), $name, r.is_ok()));
+            }
+            if let Ok(x) = r {
+                match serde_json::to_string(&x) {
+                    Ok(t2) => {
+                        if t2 != text {
+                            out.fail("typed_reencode", format!("{} re-serialises {text} as {t2}", $name));
+                        }
+                    }
+                    Err(e) => out.fail("typed_reencode", format!("{}: {e}", $name)),
+                }
+            }
+        }};
+    }
+    typed!(Marker, Value::Marker, "Marker");
+    typed!(Remove, Value::Remove, "Remove");
+    typed!(Na, Value::Na, "Na");
+    typed!(Number, Value::Number(_), "Number");
+    {
+        // Str has Deserialize only
+        let r: Result<Str, _> = serde_json::from_str(text);
+        if r.is_ok() != matches!(v, Value::Str(_)) {
+            out.fail("typed_accepts", format!("{}: deserialising {text} as Str gives ok={}", crate::c01::kind_name(v), r.is_ok()));
+        }
+    }
+    typed!(Ref, Value::Ref(_), "Ref");
+    typed!(Uri, Value::Uri(_), "Uri");
+    typed!(Symbol, Value::Symbol(_), "Symbol");
+    typed!(Date, Value::Date(_), "Date");
+    typed!(Time, Value::Time(_), "Time");
+    typed!(DateTime, Value::DateTime(_), "DateTime");
+    typed!(Coord, Value::Coord(_), "Coord");
+    typed!(XStr, Value::XStr(_), "XStr");
+    typed!(Dict, Value::Dict(_), "Dict");
+    typed!(Grid, Value::Grid(_), "Grid");
+}
+
+pub fn exec(label: &str, input: &str, out: &mut CaseOut) {
+    let v = match vx::parse(input) {
+        Some(v) => v,
+        None => return out.fail("harness", "unparsable VX input".into()),
+    };
+    out.nontrivial = true;
+    out.stat(&format!("kind:{}", crate::c01::kind_name(&v)));
+    let wf = label.starts_with("wf");
+    let text = match serde_json::to_string(&v) {
+        Ok(t) => t,
+        Err(e) => {
+            if wf {
+                out.fail("enc_err", format!("serde_json::to_string failed: {e}"));
+            }
+            return;
+        }
+    };
+    // entry points agree
+    match serde_json::to_vec(&v) {
+        Ok(b) if b == text.as_bytes() => {}
+        _ => out.fail("entry_points", "to_vec differs from to_string".into()),
+    }
+    let tree = serde_json::to_value(&v);
+    match jtok::parse(&text) {
+        Some(j) => out.req(format!("C02 jenc {input}"), format!("ok {}", jtok::show_reply(&j))),
+        None => out.fail("harness", format!("own JSON reader rejects {text}")),
+    }
+    let (reply, back) = jdec_reply(&text);
+    if let Some(j) = jtok::parse(&text) {
+        out.req(format!("C02 jdec {}", jtok::show_request(&j)), reply);
+    }
+    let from_slice: Option<Value> = serde_json::from_slice(text.as_bytes()).ok();
+    let from_value: Option<Value> = tree.ok().and_then(|t| serde_json::from_value(t).ok());
+    for (name, got) in [("from_slice", &from_slice), ("from_value(to_value)", &from_value)] {
+        match (&back, got) {
+            (Some(a), Some(b)) => {
+                if let Some(d) = same::diff(a, b, "v") {
+                    out.fail("entry_points", format!("{name} differs from from_str: {d}"));
+                }
+            }
+            (None, None) => {}
+            _ => out.fail("entry_points", format!("{name} and from_str disagree on acceptance of {text}")),
+        }
+    }
+    if wf {
+        match &back {
+            None => out.fail("rt_decode_err", format!("decoder rejects the encoder's output {text}")),
+            Some(b) => {
+                if let Some(d) = same::diff(&v, b, "v") {
+                    out.fail("rt_mismatch", format!("{d}   (json {text})"));
+                }
+            }
+        }
+        typed_checks(&v, &text, out);
+    }
+}
+
+pub fn generate(ctx: &mut Ctx) {
+    for v in crate::c01::named_cases() {
+        ctx.case("wf:named", &vx::show(&v));
+    }
+    // numbers: the magnitudes the property names
+    for x in gen::F64_EDGES.iter().copied().chain([f64::NAN, f64::INFINITY, f64::NEG_INFINITY]) {
+        ctx.case("wf:num", &vx::show(&Value::make_number(x)));
+        if x.is_finite() {
+            ctx.case("wf:num", &vx::show(&Value::Number(Number { value: x, unit: libhaystack::units::get_unit("kW") })));
+        }
+        ctx.case("wf:coordnum", &vx::show(&Value::List(vec![Value::make_number(x), Value::make_number(-x)])));
+    }
+    for (i, u) in gen::all_units_cached().iter().enumerate() {
+        let x = gen::F64_EDGES[i % gen::F64_EDGES.len()];
+        ctx.case("wf:unit", &vx::show(&Value::Number(Number { value: x, unit: Some(u) })));
+    }
+    {
+        use chrono::TimeZone;
+        let zones = gen::zones_cached(true).clone();
+        let step = if ctx.quick() { 7 } else { 1 };
+        for (i, z) in zones.iter().enumerate() {
+            if i % step != 0 {
+                continue;
+            }
+            let secs = 315_532_800 + (i as i64) * 4_000_003;
+            let dt = z.timestamp_opt(secs, (i as u32 % 3) * 250_000_000).single().unwrap();
+            ctx.case("wf:zone", &vx::show(&Value::DateTime(DateTime::from(dt))));
+        }
+    }
+    let total = ctx.n(4000, 200_000);
+    for i in 0..total {
+        let mut rng = ctx.rng.fork();
+        let depth = if i % 10 == 0 { 6 } else { 3 };
+        let v = gen::value(&mut rng, &Cfg::wf(depth));
+        ctx.case("wf:rand", &vx::show(&v));
+    }
+    let total = ctx.n(1000, 30_000);
+    for _ in 0..total {
+        let mut rng = ctx.rng.fork();
+        let v = gen::value(&mut rng, &Cfg::any(3));
+        ctx.case("any:rand", &vx::show(&v));
+    }
+}
